@@ -53,3 +53,31 @@ prop("C10",
      explanation="abs_refines: for every op sequence the model bus seen through `abs` equals the abstract map; spec_read_write_*: no aliasing in the map; harness: real bus = model = map",
      assumptions=["status registers read at 0xF1-0xF3/0xF9-0xFB are outside the map (C14 covers the board status)"],
      )
+
+prop("C05",
+     modules=["Emu2a.Props.C05"],
+     theorems=["Emu2a.C05.inv_reachable", "Emu2a.C05.running_valid", "Emu2a.C05.inv_applyOp", "Emu2a.C05.error_iff",
+               "Emu2a.C05.stop_iff", "Emu2a.C05.run_eq_spec", "Emu2a.C05.halt_absorbing", "Emu2a.C05.halt_absorbing_iter",
+               "Emu2a.C05.leave_halt", "Emu2a.C05.continue_spec", "Emu2a.C05.spValid_s16", "Emu2a.C05.spValid_s32",
+               "Emu2a.C05.spValid_s48", "Emu2a.C05.spValid_s64", "Emu2a.C05.spValid_s0", "Emu2a.C05.pcValid_size"],
+     harness="c05",
+     level_text="Lean theorems: invariant `not error-stopped => SP and PC valid` preserved by every operation and lifted to all histories (inv_reachable), exact characterisation of the edge that error-stops / stops (error_iff, stop_iff, run_eq_spec), absorbing halt states (halt_absorbing, leave_halt), band lemmas with the literals regenerated from raw/mod.rs; the model's clock edge is tied to the code by edge-by-edge differential dumps incl. private fields, and every edge of the generated runs is also checked against the specification directly",
+     technique="Lean 4 invariant proof by induction over operation sequences + edge-by-edge differential and spec check on supervised runs",
+     rule="programs: deep PUSH and CALL recursion, LDSP to random values, POP runs upwards, jumps to arbitrary addresses, fall-through to the limit, random images x 5 stack sizes x program-size limits {Auto,0,1,n-1,n,n+1,255}; after EVERY edge: spec.run (halt state prescribed by the spec from observations around the edge) and spec.valid (Running => SP/PC valid); after every halt: 20 edges + 1 key clock must leave the machine equal (PartialEq), 30 stimuli must not change the halt state; distinct = distinct op lines",
+     explanation="see theorems; the harness found no edge whose halt state differs from SupSpec.runAfter",
+     assumptions=["op alphabet = MOp (Model/Ops.lean); direct `registers_mut`/`set_stacksize` calls of the library API are outside it"],
+     )
+
+prop("C13",
+     modules=["Emu2a.Props.C13"],
+     theorems=["Emu2a.C13.no_panic", "Emu2a.C13.no_panic_step", "Emu2a.C13.load_ok", "Emu2a.C13.word_fields",
+               "Emu2a.C13.nextAddr_lt", "Emu2a.C13.selA_lt", "Emu2a.C13.selB_lt", "Emu2a.C13.selW_lt",
+               "Emu2a.C13.input_index", "Emu2a.C13.ram_index", "Emu2a.C13.toNatSat_lt", "Emu2a.C13.timer_fc",
+               "Emu2a.C13.timer_fd", "Emu2a.C13.edge_no_panic", "Emu2a.C13.wf_clockEdge"],
+     harness="c13",
+     level_text="Lean theorem no_panic: from a well-formed machine (real stack size, micro-address < 512 - established by new/load) no operation of any sequence panics and every intermediate machine is well-formed; each panic-capable site of the machine code is either an explicit outcome of the model (unreachable! for stack size NotSet, RAM index in load) or discharged by a per-site lemma (4-bit ALU select, 3-bit register numbers, 9-bit micro-address over the whole generated control store, input register index, saturating casts, timer arithmetic). Tied to the code by differential histories with catch_unwind around every call",
+     technique="Lean 4 well-formedness invariant + per-site dead-branch lemmas (decide over the generated control store) + differential histories with catch_unwind",
+     rule="random and opcode-biased RAM images (0..240 bytes) x 5 stack sizes x program sizes x random stimulus (interrupt, continue, resets, input/board setters incl. NaN/inf/denormal bit patterns, direct bus reads/writes of every address, mode switches, reloads) interleaved with single edges; every call under catch_unwind, full dump compared after every 1-4 ops; distinct = distinct op lines",
+     explanation="what no model can exhibit: stack exhaustion or allocation failure of the Rust runtime (no modelled function recurses or allocates per edge)",
+     assumptions=["Rust float->int casts saturate (language semantics)", "debug-assertion/overflow checks are ON in the harness build (profile.release: debug-assertions, overflow-checks)"],
+     )
